@@ -1,5 +1,6 @@
 SPECIFICATION TSpec
 CONSTANT Strict = TRUE
 CONSTANT Deviations = {}
+CONSTRAINT StepBound
 POSTCONDITION Accepted
 CHECK_DEADLOCK FALSE
